@@ -27,7 +27,7 @@ func pre(emit func(op string), thorough bool) {
 				for _, m := range "GPHg" {
 					for _, b := range "nersS" {
 						for _, o := range sim.RtChars {
-							emit(fmt.Sprintf("rm=%d,cr=%d,rl=%d,ip=1,w=0/%s/%c:%c:g%c/i0.f0", rm, cr, rl, subs, m, b, o))
+							emit(fmt.Sprintf("%s/%s/%c:%c:g%c/i0.f0", sim.Params(rm, cr, rl, 1, 0, 0), subs, m, b, o))
 						}
 					}
 				}
@@ -36,8 +36,12 @@ func pre(emit func(op string), thorough bool) {
 	}
 	for _, o1 := range sim.RtChars {
 		for _, o2 := range sim.RtChars {
-			emit(fmt.Sprintf("rm=2,cr=1,rl=1,ip=1,w=0/%s/G:n:g%c.g%c/i0.f0", subs, o1, o2))
-			emit(fmt.Sprintf("rm=2,cr=1,rl=0,ip=1,w=0/%s/P:r:g%c.g%c/i0.f0", subs, o1, o2))
+			emit(fmt.Sprintf("%s/%s/G:n:g%c.g%c/i0.f0", sim.Params(2, 1, 1, 1, 0, 0), subs, o1, o2))
+			emit(fmt.Sprintf("%s/%s/P:r:g%c.g%c/i0.f0", sim.Params(2, 1, 0, 1, 0, 0), subs, o1, o2))
+			// the same with least-connection / sticky selection and a health check that takes a backend out
+			// after its first failure (the retry has to go elsewhere)
+			emit(fmt.Sprintf("%s/%s/G:n:g%c.g%c.gc/i0.f0", sim.Params(2, 1, 1, 1, 1, 1), subs, o1, o2))
+			emit(fmt.Sprintf("%s/%s/G:n:g%c.g%c.gc/i0.f0", sim.Params(2, 1, 1, 1, 2, 1), subs, o1, o2))
 		}
 	}
 }
